@@ -40,9 +40,9 @@ class Fork:
 
 def job(arg):
     """one configuration; when the executed code compares symbolic values by order and the property's policy does not decide it, the
-    configuration is run once per outcome (at most 8 runs) and the results are merged"""
+    configuration is run once per outcome (at most 64 runs) and the results are merged"""
     pending, merged, runs = [[]], None, 0
-    while pending and runs < 8:
+    while pending and runs < 64:
         dec = pending.pop(0)
         runs += 1
         Sym.FORK = Fork(dec)
@@ -70,7 +70,7 @@ def job(arg):
     if merged is None or pending:
         cfg = arg[1]
         return {'group': cfg['group'], 'n': 0, 'unsat': 0, 'sat': [], 'unknown': [], 'solver_s': 0, 'queries': 0, 'samples': [], 'extra': {},
-                'error': 'RuntimeError: more than 8 runs needed to decide the ordering comparisons of this configuration', 'cfg': cfg}
+                'error': 'RuntimeError: more than 64 runs needed to decide the ordering comparisons of this configuration', 'cfg': cfg}
     return merged
 
 
@@ -104,8 +104,8 @@ def job1(arg, fork):
         return {'group': cfg['group'], 'n': 0, 'unsat': 0, 'sat': [], 'unknown': [], 'solver_s': 0, 'queries': 0, 'samples': [],
                 'extra': {}, 'error': '%s: %s\n%s' % (type(e).__name__, e, traceback.format_exc()[-800:]), 'cfg': cfg}
     events = [list(e) for e in Sym.EQ_EVENTS]
-    if fork.constraints:
-        assumptions = list(assumptions) + fork.constraints
+    if fork.constraints or Sym.SIDE:
+        assumptions = list(assumptions) + fork.constraints + list(Sym.SIDE)
     res = decide_job(cfg['group'], obs, assumptions, timeout_ms=cfg.get('timeout_ms', 60000), extra=info)
     res['cfg'] = cfg
     res['eq_events'] = events
